@@ -9,7 +9,7 @@ from ..core import to_tla, MachineryError, TSet
 from ..pgm import Domain, Factor, CliqueVector, GraphicalModel, fs, LETTERS, to_order
 from .c01 import catalogue, potentials, build_model
 
-KINDS = ["ones", "identity", "prefix", "pick0", "twice"]
+KINDS = ["ones", "identity", "prefix", "pick0", "twice", "ramp", "double0"]
 
 
 def kmat(kind, n):
@@ -19,6 +19,9 @@ def kmat(kind, n):
     if kind == "pick0":
         m = np.zeros((1, n)); m[0, 0] = 1; return m
     if kind == "twice": return 2 * np.eye(n)
+    if kind == "ramp": return np.arange(n, dtype=float).reshape(1, n)
+    if kind == "double0":
+        m = np.zeros((1, n)); m[0, 0] = 2; return m
 
 
 def all_seqs(V):
@@ -74,8 +77,10 @@ def run(ctx, canary=False):
             calls.append({"k": "many", "list": [q for q in rng.sample([x for x in seqs if len(x) == 2], 2)] + [list(V)[:1]]})
             calls.append({"k": "krondot", "kinds": {a: rng.choice(KINDS) for a in V}})
             calls.append({"k": "krondot", "kinds": {a: "identity" for a in V}})
+            calls.append({"k": "krondot", "kinds": {a: rng.choice(["ramp", "double0", "ones"]) for a in V}})
             calls.append({"k": "datavector"})
             calls.append({"k": "saveload"})
+            calls.append({"k": "synth"})
         return calls
 
     def run_mq(name, full, depth):
@@ -137,7 +142,7 @@ def run(ctx, canary=False):
     for e in emits[:budget]:
         replay_history(ctx, cat[e["sid"] - 1], e, rng, paths)
     ctx.extra["path_coverage"] = paths
-    for need in ("cache", "ve", "pair", "krondot", "datavector", "saveload"):
+    for need in ("cache", "ve", "pair", "krondot", "datavector", "saveload", "synth"):
         if not paths.get(need):
             raise MachineryError("query path never exercised: " + need)
     for e in emits:
@@ -219,6 +224,10 @@ def replay_history(ctx, s, e, rng, paths):
                     bad.append("datavector = %s, joint %s" % (got.tolist(), want.tolist()))
                 if not np.array_equal(m.datavector(), dv.reshape(-1)):
                     bad.append("datavector(flatten=True) != flatten of datavector(False)")
+            elif c["k"] == "synth":
+                paths["synth"] = paths.get("synth", 0) + 1
+                np.random.seed(3)
+                m.synthetic_data(rows=7, method="round")
             elif c["k"] == "saveload":
                 paths["saveload"] = paths.get("saveload", 0) + 1
                 fd, path = tempfile.mkstemp(dir=ctx.work, suffix=".pkl")
